@@ -90,6 +90,10 @@ func c05Check(c *caseCtx, g *genReq, d decision) *electreOut {
 	c.count("evaluations", 1)
 	if !d.OK {
 		c.count("rejected", 1)
+		if methodFailed(d) {
+			// the generated request is in the method's domain: failing inside Evaluate is not "ranking the alternatives"
+			c.violate("method-failed:"+errClass(d.Err), "the method fails on an in-domain request instead of ranking: "+d.Err, M{"request": g.M})
+		}
 		return nil
 	}
 	o, msg := electreOutOf(d.View)
@@ -254,6 +258,31 @@ func c06Veto(c *caseCtx) {
 	c06Run(c, genRequest(c.rng, o))
 }
 
+// large problems with ties at high positions: index bookkeeping beyond 64 alternatives
+func c06Large(c *caseCtx) {
+	n := 65 + c.rng.Intn(16)
+	g := genRequest(c.rng, genOpts{method: "electreIII", minAlt: n, maxAlt: n, minCrit: 2, maxCrit: 3, allCons: 1, profile: profTies, noRange: true})
+	alts := g.M["knownAlternatives"].([]interface{})
+	// the last three alternatives are identical and at least as good as everybody on every criterion
+	best := M{}
+	for _, cr := range g.crits {
+		if cr.cost {
+			best[cr.id] = -1.0
+		} else {
+			best[cr.id] = 3.0
+		}
+	}
+	for i := n - 3; i < n; i++ {
+		cv := M{}
+		for k, v := range best {
+			cv[k] = v
+		}
+		alts[i].(M)["criteria"] = cv
+	}
+	c.count("large_instances", 1)
+	c06Run(c, g)
+}
+
 func c06Run(c *caseCtx, g *genReq) {
 	alts := g.M["knownAlternatives"].([]interface{})
 	// plant structure: a dominated copy (worse or equal everywhere) and sometimes an identical copy
@@ -279,6 +308,10 @@ func c06Run(c *caseCtx, g *genReq) {
 	c.count("evaluations", 1)
 	if !d.OK {
 		c.count("rejected", 1)
+		if methodFailed(d) {
+			// the generated request is in the method's domain: failing inside Evaluate is not "ranking the alternatives"
+			c.violate("method-failed:"+errClass(d.Err), "the method fails on an in-domain request instead of ranking: "+d.Err, M{"request": g.M})
+		}
 		return
 	}
 	o, shapeMsg := electreOutOf(d.View)
@@ -455,6 +488,8 @@ func init() {
 			"distinct (#alternatives, #criteria, index maps).",
 		assumptions: []string{"scaling by a power of two is exact in binary floating point, so no tolerance is needed"},
 		streams: []*stream{
+			{name: "large", n: tierN(24, 240), unit: 2, run: c06Large, floors: map[string]int64{"large_instances": 24},
+				note: "65..80 alternatives, tie-heavy, three identical dominating alternatives at the highest positions"},
 			{name: "vetoDominance", n: tierN(60000, 800000), unit: 5000, run: c06Veto, floors: map[string]int64{"dominance_pairs": 10000},
 				note: "every criterion has q, p and v; a dominated copy is planted in half of the instances"},
 			{name: "relations", n: tierN(20000, 600000), unit: 2500, run: c06Case,
